@@ -38,8 +38,8 @@ CLAIMED = {
             "with injected handler outcomes (answer, None, wrong type, exceptions, slow), per-run barrier sizes and timers; oracle: exactly "
             "the registered handler ran once, exactly one answer per request, fallback answer is UNABLE_TO_COMPLY with ids, Session-Id, "
             "local origin and requester as destination; a second Bromelia object with foreign handlers for the same pairs.",
-            TRUST + "World B1: the connection object under Worker is a stub; multiprocessing.Manager is replaced by in-process primitives.",
-            "DESIGN.md §5 C13"),
+            TRUST + "World B1 (3 runs in 4): the connection object under Worker is a stub; world B2 (1 run in 4): the full stack, Bromelia.run -> Worker.run -> Diameter.context -> real node on the simulated network facing a scripted peer. multiprocessing.Manager is replaced by in-process primitives.",
+            "DESIGN.md §5 C13, §14"),
     "C04": ("Seeded search over message sequences x segmentations (every byte, inside headers, coalesced, swept cut positions) "
             "x interleavings of transport reader, receive worker, state machine and consumer; oracle compares the sequence "
             "returned by get_message() with what the reference encoder produced and the DWAs on the wire with the DWRs sent; "
@@ -62,8 +62,8 @@ CLAIMED = {
             "unsolicited) x schedules with stalled-thread faults anchored inside send_message; oracle: each caller gets the answer "
             "generated for its request, once, and a caller whose answer reached the application layer returns within D; "
             "slow peers (answers after 31-400 s), wall-clock steps, stalls anchored inside the dispatch path.",
-            TRUST + "World B1: the connection object under Worker is a stub; multiprocessing.Manager is replaced by in-process primitives.",
-            "DESIGN.md §5 C14"),
+            TRUST + "World B1 (3 runs in 4): the connection object under Worker is a stub; world B2 (1 run in 4): the full stack, Bromelia.run -> Worker.run -> Diameter.context -> real node on the simulated network, the scripted peer answering on the wire. multiprocessing.Manager is replaced by in-process primitives.",
+            "DESIGN.md §5 C14, §14"),
     "C15": ("Seeded search over creation histories x adversarial os.urandom outputs x thread interleavings (pre-emption at sync ops, "
             "source lines and bytecodes inside the allocation methods), histories up to 20 000 requests and process lives of minutes to weeks "
             "with wall-clock steps; every issued identifier is compared with all earlier ones.",
